@@ -477,6 +477,12 @@ def _x4(run: Run, S: dict, M: dict) -> None:
     from ..pyreader import PyReader, Raised
     cm = run.src.need(PKGM + ".convert")
 
+    PTS = "symplyphysics.core.experimental.points"
+    pm = run.src.need(PTS) if PTS in run.src.mods else None
+    pcls = next((c_ for c_ in (pm.tree.body if pm else []) if isinstance(c_, ast.ClassDef) and c_.name == "AppliedPoint"), None)
+    point_methods = {f_.name: f_ for f_ in (pcls.body if pcls else []) if isinstance(f_, ast.FunctionDef) and not f_.name.startswith("__")
+                     and not any(dotted(d_) in ("property", "staticmethod", "classmethod") for d_ in f_.decorator_list)}
+
     class ConvReader(PyReader):
 
         def __init__(self):
@@ -490,6 +496,12 @@ def _x4(run: Run, S: dict, M: dict) -> None:
                 return dict(base.coords)
             if isinstance(base, _XSys) and attr == "base_scalars":
                 return [sv(base.tag, k) for k in range(3)]
+            return NotImplemented
+
+        def hook_method(self, base, attr, args, kwargs, n):
+            # a method of AppliedPoint (points/__init__.py) that is no property: evaluated from its source, with this reader's model of the point
+            if isinstance(base, _XPoint) and attr in point_methods:
+                return self.call_def(point_methods[attr], [base] + list(args), kwargs, {})
             return NotImplemented
 
         def hook_call(self, n, env, fns):
